@@ -6,9 +6,9 @@ after every set operation are computed by the built-in `set` and whose *order* i
 the operands as iterated".
 
 * state oracle (per transition): the operation's outcome, live items vs. the model, consistency of the three internal
-  structures (item_list with tombstones, item_index_map, dead_indices) and a black-box probe on a replayed twin (two
-  fresh items are added, then every position is read back).  A failing transition is attributed to the operation and
-  not expanded.
+  structures (item_list with tombstones, item_index_map, dead_indices; if they are not laid out like that, a black-box
+  probe on a replayed twin instead: two fresh items are added, then every position is read back).  A failing transition
+  is attributed to the operation and not expanded.
 * read oracles (per reached state - observers are functions of the state, so they are evaluated once per distinct state,
   when it is expanded; states of the last level get a reads-only visit): iteration, len, membership, s[i] for every valid
   index incl. negative ones, ALL slices s[i:j:k] with i, j in [-n-1, n+1] or None and positive step, index, count,
@@ -469,24 +469,20 @@ class Spec:
                     bad(what, exp, obs)
                 if V:
                     return V, None, label
-                # probe on a replayed twin: two fresh items are added.  Where the internal structures are visible
-                # their consistency is checked again (a sound state must stay sound under add; readers are not
-                # involved, a broken reader is the read battery's business); otherwise every position is read back.
-                t, _ = self.build(hist)
-                t, _, _, _ = self.apply_both(t, L, op)
-                want = list(L2) + list(PROBES)
-                try:
-                    for p in PROBES:
-                        t.add(p)
-                    if internals(t) is not None:
-                        for what, exp, obs in check_internals(t, want):
-                            bad('probe:add-fresh-items:' + what, exp, obs)
-                    else:
+                if internals(s2) is None:
+                    # the three structures are not visible (other representation): fall back to a black-box probe
+                    # for latent corruption on a replayed twin - add two fresh items, read every position back
+                    t, _ = self.build(hist)
+                    t, _, _, _ = self.apply_both(t, L, op)
+                    want = list(L2) + list(PROBES)
+                    try:
+                        for p in PROBES:
+                            t.add(p)
                         got = [t[i] for i in range(len(want))]
-                        if got != want:
-                            bad('probe:positions-after-add', want, got)
-                except Exception as e:
-                    bad('probe:add-fresh-items', want, 'raised ' + type(e).__name__)
+                    except Exception as e:
+                        got = 'raised ' + type(e).__name__
+                    if got != want:
+                        bad('probe:positions-after-add', want, got)
                 if V:
                     return V, None, label
                 return V, canon(s2), label
